@@ -14,7 +14,7 @@ from . import dbcommon as C
 ID = "C17"
 LEAN_MODULES = ["SqliteDissect.Properties.C17"]
 RULE = ("100-byte strings obtained from valid headers (one per factory database) by perturbing every field with "
-        "boundary and random values, all pairs for the interacting fields; WAL / frame / journal headers likewise; "
+        "boundary and random values, every value of the one- and two-byte fields (all 65536 page sizes), all pairs for the interacting fields; WAL / frame / journal headers likewise; "
         "WAL histories in which PRAGMA-settable fields change, each version's header compared with the pragma values "
         "recorded after that commit. non-trivial = distinct header accepted by the implementation")
 ASSUMPTIONS = ["reserved-bytes-per-page != 0 is refused by the tool (NotImplementedError) although SQLite allows it: stated, not a violation of the six rejection rules",
@@ -92,6 +92,14 @@ def run(ctx):
                     m = bytearray(hdr)
                     m[off:off + width] = v.to_bytes(width, "big")
                     muts.append(bytes(m))
+            # every value of the one- and two-byte fields (page size: all 65536; the rule is "power of two in 512..32768, or 1")
+            if hdr is headers[0] or ctx.thorough():
+                for name, off, width in FIELDS:
+                    if width <= 2 and name not in ("magic", "res"):
+                        for v in range(1 << (8 * width)):
+                            m = bytearray(hdr)
+                            m[off:off + width] = v.to_bytes(width, "big")
+                            muts.append(bytes(m))
             # interacting pairs
             for sf in range(0, 6):
                 for te in range(0, 5):
@@ -175,6 +183,8 @@ def run(ctx):
         for i in range(n):
             cfg = F.random_cfg(r, page_sizes=[512, 1024, 4096], small=True)
             kind = ["header_pragmas", "ddl", "plain", "grow_shrink"][i % 4]
+            if kind == "header_pragmas":
+                cfg["auto_vacuum"] = [1, 2, 0][(i // 4) % 3]     # FULL <-> INCREMENTAL switches inside the log
             h = H.make_history(sc.path(f"h{i}"), cfg, r, kind=kind)
             n0 = len(ctx.oracle_failures)
             impl, vh, exc = C.compare_history_dump(ctx, h.db, h.wal, "vh.dump", with_trees=False)
@@ -190,7 +200,8 @@ def run(ctx):
                 pr = snap["pragmas"]
                 got = {"page_count": vh.versions[k].database_size_in_pages, "freelist_count": hd.number_of_freelist_pages,
                        "schema_version": hd.schema_cookie, "user_version": hd.user_version,
-                       "application_id": hd.application_id, "page_size": hd.page_size}
+                       "application_id": hd.application_id, "page_size": hd.page_size,
+                       "auto_vacuum": 0 if not hd.largest_root_b_tree_page_number else (2 if hd.incremental_vacuum_mode else 1)}
                 ctx.mark(("hist-hdr", i, k))
                 for key, v in got.items():
                     if int(v) != int(pr[key]):
